@@ -16,8 +16,9 @@
 //   - any top-level declaration, in any file of these packages, whose name is a predeclared identifier (len, copy,
 //     append, recover, false, …): reported as `shadow:<name>`;
 //   - "closure": every package of this module imported (transitively) by the anchored packages — one digest per file;
-//   - "module": go.mod's require / replace / exclude directives, the presence of go.work / go.work.sum /
-//     vendor/modules.txt (they redirect dependencies for builds inside the repository only), and every write to (or address-of) a package-level
+//   - "module": go.mod's require / replace / exclude directives, the presence of any go.work / go.work.sum / vendor
+//     directory / nested go.mod anywhere in the tree (they redirect dependencies, or carve packages out of the module,
+//     for builds made inside the repository only), and every write to (or address-of) a package-level
 //     variable of an anchored or closure package from any other package of the module.
 //
 // bin/check compares this with the committed expectation meta/surface/<Cxx>.json on every run.
@@ -434,11 +435,35 @@ func main() {
 	}
 	// files that change which code a build INSIDE the repository links, without touching go.mod (the harness builds with
 	// its own modfile and -mod=mod, so it would never see them)
-	for _, f := range []string{"go.work", "go.work.sum", "vendor/modules.txt"} {
-		if b, err := os.ReadFile(filepath.Join(repo, f)); err == nil {
-			mod["buildfile:"+f] = sha(string(b))
+	_ = filepath.Walk(repo, func(path string, info os.FileInfo, err error) error {
+		if err != nil {
+			return nil
 		}
-	}
+		rel, _ := filepath.Rel(repo, path)
+		rel = filepath.ToSlash(rel)
+		if info.IsDir() {
+			if info.Name() == ".git" {
+				return filepath.SkipDir
+			}
+			if info.Name() == "vendor" {
+				mod["buildfile:"+rel+"/"] = "present"
+				return filepath.SkipDir
+			}
+			return nil
+		}
+		switch info.Name() {
+		case "go.work", "go.work.sum":
+			// the go command uses the NEAREST go.work above the working directory: one in a sub-directory counts too
+			b, _ := os.ReadFile(path)
+			mod["buildfile:"+rel] = sha(string(b))
+		case "go.mod":
+			if rel != "go.mod" { // a nested module carves its directory out of this one
+				b, _ := os.ReadFile(path)
+				mod["buildfile:"+rel] = sha(string(b))
+			}
+		}
+		return nil
+	})
 	targets := map[string]bool{}
 	for d := range anchoredDirs {
 		targets[d] = true
